@@ -78,6 +78,7 @@ def run(ctx):
     exact, mutants = common.gen_cases(ctx, fams, n)
     common.run_exact(ctx, exact)
     common.run_differential(ctx, mutants, common.proj_framing_line)
+    common.run_cg(ctx, ('dtls_',), common.proj_framing_line)
     common.lean_failure_violation(ctx, ok)
     return ctx.finish(LEVEL,
         rule='framing sweep over 256 content types x boundary lengths x prefixes (all epochs/sequence numbers sampled incl. 0, 1, max) judged by the framing oracle; header decode exact; well-formed DTLS records / datagrams / handshake messages of every supported body incl. fragments with (offset, fragment length, length) boundary triples (exact values), suffixes, corruptions (differential); distinct = (type class, length class, prefix class, outcome) resp. (family, outcome shape)',
